@@ -1,5 +1,5 @@
-"""C08 (one clause): the additive operators on commitments and commitment randomness are the linear maps
-they are named after."""
+"""C08 (two clauses): the additive operators on commitments and commitment randomness are the linear maps
+they are named after; msm operands are aligned."""
 from ..rules import linmir as L
 
 CONFIGS_QUICK = ["default"]
@@ -14,9 +14,13 @@ EXPLANATION = (
     "(values are polynomials over the atoms self.<field>, other.<field>, f; delegation to a sibling impl is followed) and compares the result "
     "with that identity; an impl outside the small supported language is reported as undecided (fail closed). The "
     "two marlin_pc::Randomness `+=` impls handle an Option-valued field: they are executed once for each of the four "
-    "presence cases (None counts as the neutral element). Determinism of non-hiding "
+    "presence cases (None counts as the neutral element). R12c, a second clause: a multi-scalar multiplication pairs its "
+    "operands by position, so where the scalars handed to an msm are a suffix view of a coefficient vector (`coeffs[k..]`, "
+    "the leading zeros skipped) the bases must be sliced from an offset that is data-derived from the same k; checked at "
+    "every msm call of the crate and at the calls of the one-level wrappers around it. Determinism of non-hiding "
     "commitments is decided under C07 (R6b), build / schedule independence under C18.")
-RULE = "instances = 13 operator impls x {result = self + [f*]other on every written field (per presence case), or pure delegation}"
+RULE = ("instances = 13 operator impls x {result = self + [f*]other on every written field (per presence case), or pure "
+        "delegation} + one alignment instance per msm site (33)")
 
 KC = "kzg10::data_structures::Commitment"
 KR = "kzg10::data_structures::Randomness"
@@ -124,3 +128,13 @@ def run(rep, ctx, tier):
     rep.add("R12b", "inventory", not extra, "every additive operator impl on these types is in the table (2 listed as not decided)"
             if not extra else "operator impl(s) not covered by the table: %s" % extra, None)
     rep.note("the two marlin_pc::Randomness `+=` impls are decided case by case over the presence of shifted_rand")
+    # R12c: an msm pairs coefficient i with key element i - where the scalars are a suffix view of the coefficients, the
+    # bases are sliced from an offset derived from the same value
+    from ..rules import aligned as R12C
+    n_sites, n_off, n_wr = R12C.run(rep, ctx, "R12c")
+    rep.count("msm sites", n_sites)
+    rep.count("msm wrappers", n_wr)
+    rep.count("scalar offsets", n_off)
+    if n_sites < 20 or n_off < 2:
+        rep.add("R12c", "floor", False, "only %d msm sites / %d offsets into coefficient vectors found (counted 33 / 2; fail "
+                "closed)" % (n_sites, n_off), None)
